@@ -1514,23 +1514,24 @@ def _encode_host(host: str, validate_host: bool) -> str:
 
     # IDNA encoding is slow, skip it for ASCII-only strings
     if host.isascii():
-        # Check for invalid characters explicitly; _idna_encode() does this
-        # for non-ascii host names.
         host = host.lower()
-        if validate_host and (invalid := NOT_REG_NAME.search(host)):
-            value, pos, extra = invalid.group(), invalid.start(), ""
-            if value == "@" or (value == ":" and "@" in host[pos:]):
-                # this looks like an authority string
-                extra = (
-                    ", if the value includes a username or password, "
-                    "use 'authority' instead of 'host'"
-                )
-            raise ValueError(
-                f"Host {host!r} cannot contain {value!r} (at position {pos}){extra}"
-            ) from None
-        return host
-
-    return _idna_encode(host)
+    else:
+        host = _idna_encode(host)
+    # Check for invalid characters explicitly; the IDNA 2003 fallback of
+    # _idna_encode() maps compatibility characters (e.g. full-width "@", "/")
+    # to ASCII without validating the result.
+    if validate_host and (invalid := NOT_REG_NAME.search(host)):
+        value, pos, extra = invalid.group(), invalid.start(), ""
+        if value == "@" or (value == ":" and "@" in host[pos:]):
+            # this looks like an authority string
+            extra = (
+                ", if the value includes a username or password, "
+                "use 'authority' instead of 'host'"
+            )
+        raise ValueError(
+            f"Host {host!r} cannot contain {value!r} (at position {pos}){extra}"
+        ) from None
+    return host
 
 
 @rewrite_module
